@@ -4,7 +4,7 @@
 From LolModel Require Import Base Selectors.
 From LolSpec Require Import CssSem.
 From LolModel Require Import Machine Rewriter.
-From LolProofs Require Import Css CssPred StackTree Bailout TypedCounters AstSem SelLR Frontier VmExec CompileRepr VmStack VmRun.
+From LolProofs Require Import Css CssPred StackTree Bailout TypedCounters AstSem SelLR Frontier VmExec CompileRepr VmStack VmRun SelOkDec.
 From Coq Require Import List.
 Import ListNotations.
 From Coq Require Import ZArith Lia.
@@ -153,6 +153,23 @@ Proof.
   repeat constructor. all: try (vm_compute; discriminate).
 Qed.
 
+(* The side condition is syntactic and decidable: sel_okb (non-empty class names; :not() arguments that flatten exactly) is a
+   boolean function of the selector alone and implies sel_ok on every chain -- the end-to-end statement with it: *)
+Theorem C04_selector_vm_is_css_matching_for_checked_selectors :
+  forall sels docs bail fa isz mx ext ops c name n avs sc c',
+  sels <> [] -> forallb (fun sh => sel_okb (sh_selector sh)) sels = true ->
+  never_wraps_a (mkTree [] []) (ops ++ [OpStart name n avs sc]) ->
+  vm_run (new_rwc sels docs bail fa isz mx) ext ops = Some c -> vm_on_start c ext name n avs sc = Some c' ->
+  let t := tree_run_a (mkTree [] []) ops in
+  let el := fst (on_start t name n (pairs avs) sc) in
+  let anc := map o_el (t_open t) in
+  exists c1 ec' f, finish_exec c1 ext ec' = (c', FOk f) /\ r_locators c1 = r_locators c /\ ec_with_content ec' = stays_open name n sc /\
+    forall i, In i (ed_matched (si_data (ec_item ec'))) <->
+              exists sh, nth_error sels i = Some sh /\ selector_matches (sh_selector sh) el anc = true.
+Proof. exact selector_vm_is_css_dec. Qed.
+Example C04_checked_selectors_example : forallb (fun sh => sel_okb (sh_selector sh)) ex_sels = true.
+Proof. vm_compute. reflexivity. Qed.
+
 (* Attribute bail-out and recovery (entry points, the parent's jumps, hereditary jumps, at any offset): running without
    attributes, bailing out, and resuming with attributes computes exactly what one execution with attributes computes,
    for every program, stack, element and attribute list. *)
@@ -189,3 +206,4 @@ Print Assumptions C04_left_to_right_matching_is_css_matching.
 Print Assumptions C04_compiled_program_represents_the_ast.
 Print Assumptions C04_selector_vm_is_css_matching.
 Print Assumptions C04_stack_items_hold_the_ast_frontier.
+Print Assumptions C04_selector_vm_is_css_matching_for_checked_selectors.
